@@ -224,9 +224,20 @@ func (c *client) Execute(
 		if _, err := cbor.Marshal(workStartMsg); err != nil {
 			return NewErrorExecutionResult(fmt.Errorf("failed to encode work start message (%w)", err))
 		}
-		// Handle signals to the step
+		// Close marks the client as done under the mutex and then waits for the wait group: everything that is
+		// added to the wait group is added under the mutex and only while the client is not done. (An Execute
+		// that raced Close added to a wait group that was being waited for, which panics.)
+		c.mutex.Lock()
+		if c.done {
+			c.mutex.Unlock()
+			return NewErrorExecutionResult(fmt.Errorf("cannot execute step %s: the client has been closed", stepData.ID))
+		}
 		if signalsToStep != nil {
 			c.wg.Add(1)
+		}
+		c.mutex.Unlock()
+		// Handle signals to the step
+		if signalsToStep != nil {
 			go func() {
 				defer c.wg.Done()
 				c.executeWriteLoop(stepData.RunID, signalsToStep)
@@ -589,6 +600,9 @@ func (c *client) prepareResultChannels(
 	c.logger.Debugf("Preparing result channels for step with run ID %q", stepData.RunID)
 	c.mutex.Lock()
 	defer c.mutex.Unlock()
+	if c.done {
+		return fmt.Errorf("cannot execute step %s: the client has been closed", stepData.ID)
+	}
 	_, existing := c.runningStepResultEntries[stepData.RunID]
 	if existing {
 		return fmt.Errorf("duplicate run ID given '%s'", stepData.RunID)
